@@ -291,3 +291,46 @@ func vh_C18_shared(a []int) {
 }
 
 func init() { vhRegister("vh_C18_shared", vh_C18_shared) }
+
+// vh_C18_successive: two substitutions in one process with different dictionaries.  The second dictionary
+// has a value that spells what another entry of the first one would look like in a flattened form (name, a
+// separator, value, a terminator - for the customary separators, and the marker syntax itself), so that any
+// state kept between calls and keyed by a flattening of the dictionary would be shared between them.  Each
+// call must give the single-pass result for its own dictionary, in both orders of the calls.
+// a = {order of the calls (0: two entries first, 1: one entry first)}
+func vh_C18_successive(a []int) {
+	v1 := vConcStr(vPick("v1", "", "x"))
+	v2 := vConcStr(vPick("v2", "", "y"))
+	tail := vConcStr(vPick("spelled", "{B}", ";B=", ",B=", ",B:", "&B=", "B", "B=", "\x00B\x00", " B ", "|B|", "\nB\t"))
+	dTwo := map[string]string{"A": v1, "B": v2}
+	dOne := map[string]string{"A": v1 + tail + v2}
+	text := vConcStr(vPick("text", "{A}{B}", "{B}-{A}"))
+	layout := Layout{Type: "layout", Steps: []Step{{Type: "step", ExpectedCommand: []string{text, "fixed"},
+		SupplyChainItem: SupplyChainItem{Name: "s", ExpectedMaterials: [][]string{{"ALLOW", text}}, ExpectedProducts: [][]string{{"ALLOW", text}}}}},
+		Inspect: []Inspection{{Type: "inspection", Run: []string{"sh", text}, SupplyChainItem: SupplyChainItem{Name: "i"}}}}
+	dicts := []map[string]string{dTwo, dOne}
+	if a[0] == 1 {
+		dicts = []map[string]string{dOne, dTwo}
+	}
+	// a third call repeats the first dictionary: what the second call left behind must not show either
+	dicts = append(dicts, dicts[0])
+	for _, d := range dicts {
+		want := vspecSubstOnce(text, d)
+		r, err := SubstituteParameters(layout, d)
+		vObserve("successive", err == nil)
+		vAssert("C18.successive-substitution-succeeds", err == nil)
+		if err == nil {
+			vAssert("C18.each-call-substitutes-with-its-own-dictionary", r.Steps[0].ExpectedCommand[0] == want && r.Steps[0].ExpectedCommand[1] == "fixed" &&
+				r.Steps[0].ExpectedMaterials[0][1] == want && r.Steps[0].ExpectedProducts[0][1] == want && r.Inspect[0].Run[1] == want)
+		}
+	}
+	vAssert("C18.the-layout-keeps-its-markers-between-calls", layout.Steps[0].ExpectedCommand[0] == text && layout.Inspect[0].Run[1] == text)
+	vReach("C18.end")
+}
+
+func vh_C10_successive(a []int) { vh_C18_successive(a) }
+
+func init() {
+	vhRegister("vh_C18_successive", vh_C18_successive)
+	vhRegister("vh_C10_successive", vh_C10_successive)
+}
